@@ -378,6 +378,13 @@ def run(ck):
                 if _same(tp, t0):
                     ck.ok("C04.R2", inst + " [%s]" % _c(p), fn_.site())
                 else:
+                    # a result that sees the given states only through unique(states) (and never uses the inverse map) is the same for
+                    # every ordering of the rows it was given, whereas row k of a correct result belongs to row k of the input
+                    UNIQ = ("x:torch.unique", "unique", "x:numpy.unique")
+                    if "states" in tp.syms() and not occurs_outside(tp, "states", UNIQ) and not any(uses_part(tp, u, 1) for u in UNIQ):
+                        ck.violation("C04.R2", inst + " [%s]" % _c(p), fn_.site(),
+                                     "the plain call depends on the given states only through unique(states) and never maps back: the result is in sorted order whatever the order of the batch")
+                        continue
                     sa_, sb_ = getattr(plain, "shape", None), getattr(items[0], "shape", None)
                     definite = sa_ is not None and sb_ is not None and (len(sa_) != len(sb_) or any(x != y and "?" not in (x, y) and not str(x).startswith("nnz") and not str(y).startswith("nnz") for x, y in zip(sa_, sb_)))
                     ck.check(False if definite else None, "C04.R2", inst + " [%s]" % _c(p), fn_.site(),
